@@ -440,6 +440,8 @@ def apply_params(sig, posargs, pokargs, varargs, kwoargs, varkwargs,
     if sources is not None:
         sig = Signature._upgrade(sig, function, sources, _stacklevel=1)
         sig.sources = sources
+    else:
+        sig.sources = copy_sources(sig.sources)
     return sig
 
 
